@@ -6,9 +6,10 @@ def plan(tier):
     return {
         "mc": mc,
         "families": [{"fam": "hmm", "trace": "HmmTrace"}],
-        "required_obligations": ["t1", "end_dist", "end_zero", "substochastic", "den10", "impossible_obs",
+        "required_obligations": ["mc_family", "t1", "end_dist", "end_zero", "substochastic", "den10", "impossible_obs",
                                  "unreachable_state", "ties", "long_t", "single_state"],
-        "rule": "one run = one model object (plain / opt_end without / opt_end with end distribution; three "
+        "rule": "spec->impl: the S=2,M=2,Den=2 model family of the MC run x all observation sequences T<=3 replayed "
+                "into the real code (quick: 1/8 of it); impl->spec: one run = one model object (plain / opt_end without / opt_end with end distribution; three "
                 "constructors) used for 2-5 observation sequences, each decoded by viterbi, forward and backward",
         "bounds": {"mc": "S=2, M=2, Den=2, T<=3, all sub-stochastic transition rows (quick: reduced emission/"
                          "initial/end families; thorough: all rows, plus S=3,M=1 stochastic)",
